@@ -138,6 +138,60 @@ fn peer_loop<A: SyncAssociation<TcpStream>>(assoc: A, ctx: u8, rx: Receiver<Call
     }
 }
 
+/// The same peer over the async API: the thread owns a current-thread tokio runtime and
+/// drives one call at a time to completion.
+fn peer_loop_async<A>(rt: &tokio::runtime::Runtime, assoc: A, ctx: u8, rx: Receiver<Call>, tx: Sender<(Call, String, Option<&'static str>)>)
+where
+    A: dicom_ul::association::AsyncAssociation<tokio::net::TcpStream> + Send,
+{
+    use dicom_ul::association::AsyncAssociation as AA;
+    let mut a = Some(assoc);
+    while let Ok(c) = rx.recv() {
+        let (out, term): (String, Option<&'static str>) = match (c, a.as_mut()) {
+            (_, None) => ("gone".into(), None),
+            (Call::Send, Some(x)) => match rt.block_on(AA::send(x, &data_pdu(ctx))) {
+                Ok(()) => ("ok".into(), None),
+                Err(e) => (format!("err:{}", err_class(&e)), None),
+            },
+            (Call::Recv, Some(x)) => match rt.block_on(AA::receive(x)) {
+                Ok(Pdu::PData { .. }) => ("data".into(), None),
+                Ok(Pdu::ReleaseRQ) => {
+                    let r = rt.block_on(AA::send(x, &Pdu::ReleaseRP));
+                    rt.block_on(async { a = None });
+                    (if r.is_ok() { "release-rq:rp-sent".into() } else { "release-rq:rp-failed".into() }, Some("ReleasedByPeer"))
+                }
+                Ok(Pdu::AbortRQ { .. }) => {
+                    rt.block_on(async { a = None });
+                    ("abort".into(), Some("PeerAborted"))
+                }
+                Ok(p) => (format!("ignored:{}", p.short_description()), None),
+                Err(e) => {
+                    let c = err_class(&e);
+                    rt.block_on(async { a = None });
+                    let st = if c == "timeout" { "Dropped" } else { "PeerClosed" };
+                    (format!("err:{c}"), Some(st))
+                }
+            },
+            (Call::Release, Some(_)) => match rt.block_on(AA::release(a.take().unwrap())) {
+                Ok(()) => ("ok".into(), Some("Released")),
+                Err(e) => (format!("err:{}", err_class(&e)), Some("Failed")),
+            },
+            (Call::Abort, Some(_)) => match rt.block_on(AA::abort(a.take().unwrap())) {
+                Ok(()) => ("ok".into(), Some("Aborted")),
+                Err(e) => (format!("err:{}", err_class(&e)), Some("Aborted")),
+            },
+            (Call::Drop, Some(_)) => {
+                rt.block_on(async { a = None });
+                ("ok".into(), Some("Dropped"))
+            }
+        };
+        if tx.send((c, out, term)).is_err() {
+            break;
+        }
+    }
+    rt.block_on(async { drop(a) });
+}
+
 struct PeerHandle {
     name: &'static str,
     tx: Sender<Call>,
@@ -235,7 +289,7 @@ fn wire_to_trace(log: &[WireEvent], w: &mut Vec<serde_json::Value>, corrupt: boo
     (n, kinds)
 }
 
-fn run_lib_case(sched: &[(usize, Call)], w: &mut Vec<serde_json::Value>, corrupt: bool, interleavings: &mut String) -> Result<usize, String> {
+fn run_lib_case(sched: &[(usize, Call)], w: &mut Vec<serde_json::Value>, corrupt: bool, interleavings: &mut String, is_async: bool) -> Result<usize, String> {
     // real acceptor
     let listener = TcpListener::bind("127.0.0.1:0").map_err(|e| e.to_string())?;
     let saddr = listener.local_addr().unwrap();
@@ -255,6 +309,24 @@ fn run_lib_case(sched: &[(usize, Call)], w: &mut Vec<serde_json::Value>, corrupt
         };
         let _ = stream.set_nodelay(true);
         let opts = ServerAssociationOptions::new().with_abstract_syntax(VERIFICATION).read_timeout(GUARD);
+        if is_async {
+            let rt = tokio::runtime::Builder::new_current_thread().enable_all().build().expect("runtime");
+            let r = rt.block_on(async {
+                stream.set_nonblocking(true).map_err(|e| e.to_string())?;
+                let ts = tokio::net::TcpStream::from_std(stream).map_err(|e| e.to_string())?;
+                opts.establish_async(ts).await.map_err(|e| format!("acceptor establish_async: {e}"))
+            });
+            match r {
+                Ok(assoc) => {
+                    let _ = est_tx.send(Ok(()));
+                    peer_loop_async(&rt, assoc, 1, ac_crx, ac_rtx)
+                }
+                Err(e) => {
+                    let _ = est_tx.send(Err(e));
+                }
+            }
+            return;
+        }
         match opts.establish(stream) {
             Ok(assoc) => {
                 let _ = est_tx.send(Ok(()));
@@ -269,6 +341,20 @@ fn run_lib_case(sched: &[(usize, Call)], w: &mut Vec<serde_json::Value>, corrupt
     let (rq_rtx, rq_rrx) = channel();
     let rq_thread = std::thread::spawn(move || {
         let opts = ClientAssociationOptions::new().with_abstract_syntax(VERIFICATION).read_timeout(GUARD);
+        if is_async {
+            let rt = tokio::runtime::Builder::new_current_thread().enable_all().build().expect("runtime");
+            match rt.block_on(opts.establish_async(paddr)) {
+                Ok(mut assoc) => {
+                    let _ = assoc.inner_stream().set_nodelay(true);
+                    let _ = est_tx2.send(Ok(()));
+                    peer_loop_async(&rt, assoc, 1, rq_crx, rq_rtx)
+                }
+                Err(e) => {
+                    let _ = est_tx2.send(Err(format!("requestor establish_async: {e}")));
+                }
+            }
+            return;
+        }
         match opts.establish(paddr) {
             Ok(mut assoc) => {
                 let _ = assoc.inner_stream().set_nodelay(true); // latency only (Nagle + delayed ACK)
@@ -367,7 +453,7 @@ fn run_lib_case(sched: &[(usize, Call)], w: &mut Vec<serde_json::Value>, corrupt
     if dbg { eprintln!("joined at {:?}", tcase.elapsed()); }
     let log = proxy.finish();
     if dbg { eprintln!("proxy done at {:?}", tcase.elapsed()); }
-    w.push(json!({"ev": "reset", "sched": sched.iter().map(|(p, c)| format!("{}:{}", if *p == 0 { "rq" } else { "ac" }, call_name(*c))).collect::<Vec<_>>()}));
+    w.push(json!({"ev": "reset", "api": if is_async { "async" } else { "sync" }, "sched": sched.iter().map(|(p, c)| format!("{}:{}", if *p == 0 { "rq" } else { "ac" }, call_name(*c))).collect::<Vec<_>>()}));
     let (n, kinds) = wire_to_trace(&log, w, corrupt);
     *interleavings = kinds.join(",");
     let api = |r: &Vec<(Call, String)>| r.iter().enumerate().map(|(i, (c, o))| json!({"seq": i, "call": call_name(*c), "ret": o})).collect::<Vec<_>>();
@@ -401,6 +487,7 @@ fn run_lib(args: &std::collections::HashMap<String, String>) {
         scheds.push(s);
     }
     let selftest = args.contains_key("selftest");
+    let is_async = args.contains_key("async");
     let mut w = NdjsonWriter::create(&args["out"]);
     let mut rep = Report::new();
     let mut inter = std::collections::BTreeSet::new();
@@ -420,7 +507,7 @@ fn run_lib(args: &std::collections::HashMap<String, String>) {
                 }
                 let mut ev = Vec::new();
                 let mut il = String::new();
-                let r = run_lib_case(&scheds[i], &mut ev, selftest && i % 5 == 0, &mut il);
+                let r = run_lib_case(&scheds[i], &mut ev, selftest && i % 5 == 0, &mut il, is_async);
                 results.lock().unwrap()[i] = Some((r, ev, il));
             });
         }
